@@ -4,7 +4,7 @@
    collapse) are compiled and executed on every generated expression, under every scoping, and compared with this
    denotation. MapReduce and the debug operators are not modelled; stacking is covered under C12. *)
 Require Import List Bool ZArith.
-From FV Require Import Lib.Sym Model.C01 Model.C01Compile Model.C03 Proofs.C03 Model.C03Graph Proofs.C03GraphEval Proofs.C03GraphWf Proofs.C03GraphCompile.
+From FV Require Import Lib.Sym Model.C01 Model.C01Compile Model.C03 Proofs.C03 Model.C03Graph Proofs.C03GraphEval Proofs.C03GraphWf Proofs.C03GraphCompile Proofs.C03GraphPers.
 Import ListNotations.
 
 (* any nesting / explicit scoping of the same operator sequence denotes the same train and apply chains *)
@@ -52,6 +52,13 @@ Theorem C03_pipeline_compiles : forall e a t sl visit,
     /\ delivered tb (gnodes gs) (pa gs) (xa s) /\ delivered tb (gnodes gs) (pt gs) (xt s).
 Proof. exact pipeline_compiles. Qed.
 Print Assumptions C03_pipeline_compiles.
+
+(* the states the graph trains for the stateful apply-path groups are, in pipeline order, the `persisted` list of the
+   expression denotation: what Composition.persistent enumerates and the committer stores by position (C04) *)
+Theorem C03_graph_persisted : forall e a t sl,
+  map (state_of (gnodes (build e (gsource a t sl)))) (pers_gids e (gsource a t sl)) = persisted (den e (source a t sl)).
+Proof. exact pipeline_persisted. Qed.
+Print Assumptions C03_graph_persisted.
 
 Example C03_graph_witness :
   let a := OpSpec (Some (Actor 5 0 true)) TSame None in
